@@ -175,25 +175,46 @@ fn run_seq_one(b: &J) -> Vec<J> {
 }
 
 fn cmd_seq(a: &HashMap<String, String>) {
-    let beh = util::read_ndjson(util::arg_str(a, "behaviours", ""));
+    let beh = Arc::new(util::read_ndjson(util::arg_str(a, "behaviours", "")));
     let mut f = io::BufWriter::new(std::fs::File::create(util::arg_str(a, "out", "")).unwrap());
-    let mut epoch = 0u64;
-    for b in beh {
-        epoch += 1;
-        trace::set_epoch(epoch);
-        trace::take();
-        // watchdog: an append that never returns (a wedged lock) must not hang the driver
+    // a worker thread runs the behaviours one after the other; the main thread is the watchdog: an
+    // append that never returns (a wedged lock) must not hang the driver
+    let mut start = 0usize;
+    let mut gen_no = 0u64;
+    while start < beh.len() {
+        gen_no += 1;
         let (tx, rx) = mpsc::channel();
-        let b2 = b.clone();
+        let b2 = beh.clone();
+        let base = gen_no * 10_000_000;
         std::thread::spawn(move || {
-            let _ = tx.send(run_seq_one(&b2));
+            for i in start..b2.len() {
+                trace::set_epoch(base + i as u64);
+                trace::take();
+                if tx.send((i, run_seq_one(&b2[i]))).is_err() {
+                    return;
+                }
+            }
         });
-        let r = match rx.recv_timeout(Duration::from_secs(10)) {
-            Ok(obs) => json!({"id": b["id"], "obs": obs}),
-            Err(_) => json!({"id": b["id"], "blocked": true, "calls_so_far": trace::take()}),
-        };
-        serde_json::to_writer(&mut f, &r).unwrap();
-        f.write_all(b"\n").unwrap();
+        loop {
+            match rx.recv_timeout(Duration::from_secs(10)) {
+                Ok((i, obs)) => {
+                    serde_json::to_writer(&mut f, &json!({"id": beh[i]["id"], "obs": obs})).unwrap();
+                    f.write_all(b"\n").unwrap();
+                    start = i + 1;
+                    if start == beh.len() {
+                        break;
+                    }
+                }
+                Err(_) => {
+                    // the worker is stuck in behaviour `start`: report it, leave the worker behind
+                    trace::set_epoch(u64::MAX);
+                    serde_json::to_writer(&mut f, &json!({"id": beh[start]["id"], "blocked": true})).unwrap();
+                    f.write_all(b"\n").unwrap();
+                    start += 1;
+                    break;
+                }
+            }
+        }
     }
     f.flush().unwrap();
 }
@@ -366,10 +387,10 @@ fn obs_json(o: &Observation) -> J {
 fn parse_unit(s: &str) -> Unit {
     use metrique_writer_core::unit::{NegativeScale, PositiveScale};
     match s {
-        "Second" => Unit::Second(NegativeScale::One),
-        "Millisecond" => Unit::Second(NegativeScale::Milli),
-        "Byte" => Unit::Byte(PositiveScale::One),
-        "Kilobyte" => Unit::Byte(PositiveScale::Kilo),
+        "Seconds" => Unit::Second(NegativeScale::One),
+        "Milliseconds" => Unit::Second(NegativeScale::Milli),
+        "Bytes" => Unit::Byte(PositiveScale::One),
+        "Kilobytes" => Unit::Byte(PositiveScale::Kilo),
         "Percent" => Unit::Percent,
         "Count" => Unit::Count,
         _ => Unit::None,
@@ -582,6 +603,7 @@ fn cmd_rl(a: &HashMap<String, String>) {
         futures::executor::block_on(q.flush_async());
         drop(q);
         drop(handle);
+        trace::ev(json!({"ev": "End", "ms": t0.elapsed().as_millis() as u64}));
         let evs = trace::take();
         out.put(&sc, &evs, json!({}));
     }
